@@ -28,6 +28,9 @@ SHAPES_3D = [
     ("cat", "cat", "cat"), ("cat", "cat", "mr"), ("cat", "mr", "cat"), ("cat", "mr", "mr"),
     ("mr", "cat", "cat"), ("mr", "cat", "mr"), ("mr", "mr", "cat"), ("mr", "mr", "mr"),
     ("cai", "cac", "cat"), ("cai", "cac", "mr"),
+    # table dimensions of the other categorical kinds (dated, enum-backed, logical)
+    ("cat_date", "cat", "cat"), ("text", "cat", "mr"), ("datetime", "mr", "cat"),
+    ("numeric", "cat", "cat"), ("logical", "cat", "cat"),
 ]
 
 
